@@ -590,6 +590,7 @@ pub fn run(ctx: &Ctx) -> i32 {
         explore(ctx, &format!("valid constructions: DHW buildings (parameter space of C15), {name}"), Layered { slots, bases: crate::alpha::bases(false) }, light.clone(), shared.clone());
     }
     explore(ctx, "valid constructions: FLOW with values of five to eight significant digits (33725.21, 96485.72, 1234567.89), depth<=3", Wide { alphabet: crate::alpha::flow(2, &[3372521, 9648572, 123456789], crate::alpha::Rich::Base), bases: crate::alpha::bases(false), max_add: if q { 3 } else { 4 }, repeat: false }, light.clone(), shared.clone());
+    explore(ctx, "valid constructions: VOCAB (every service, carrier, cogeneration fuel and production source)", Wide { alphabet: crate::alpha::vocab_letters(), bases: crate::alpha::vocab_base(), max_add: if q { 1 } else { 2 }, repeat: false }, light.clone(), shared.clone());
     explore(ctx, "valid constructions: COMBO (complete 12-step buildings)", Layered { slots: crate::alpha::combo_slots(if q { 12 } else { 16 }), bases: crate::alpha::bases(false) }, light.clone(), shared.clone());
     explore(ctx, &format!("valid constructions: FLOW, depth<={}", if q { 2 } else { 3 }), Wide { alphabet: crate::alpha::flow(2, &[0, 100, 300], crate::alpha::Rich::Wide), bases: crate::alpha::bases(false), max_add: if q { 2 } else { 3 }, repeat: false }, light.clone(), shared.clone());
     // numeric options and environment faults (one state, so that it is replayable like any other)
